@@ -36,7 +36,9 @@ RULE = ('(a) a case = (nesting of binding elements, name triple, pre-binding vec
 ASSUMPTIONS = ['comprehension targets and <?python assignments are declared leaks (stored in the variable scope by design) and '
                'are not generated here']
 
-BUILTIN_NAMES = ['len', 'str', 'id', 'int', 'list', 'type', 'float']
+BUILTIN_NAMES = ['len', 'str', 'id', 'int', 'list', 'type', 'float',
+                 # the classes the engine's own generated code catches ('a | b', exists:): a variable of that name is just a variable
+                 'AttributeError', 'NameError', 'TypeError', 'LookupError', 'ValueError', 'KeyError', 'Exception']
 POOL = ['a', 'b', 'c'] + BUILTIN_NAMES + ['get', 'getname', 're', 'functools', 'intern', 'convert', 'econtextual', 'ns']
 
 
